@@ -2,6 +2,7 @@
 from ..rules_tables import Tables, grammar, T4_edges
 from ..rules_flow import Flow, P_rules
 from ..rules_gate import G3_graphs, K1_loader
+from ..rules_conv import W16_positional_connectivity
 
 
 def run(tree, rep, tier):
@@ -15,6 +16,7 @@ def run(tree, rep, tier):
     K1_loader(rep, flow, T, tier, mode="pairs")
     G3_graphs(rep, flow)
     P_rules(rep, flow, which=("P1", "P2", "P3"))
+    W16_positional_connectivity(rep, flow, tree)
     rep.trusted += ["Q1", "Q2", "Q3", "Q4"]
     rep.decided += ["every two-qubit token of every advertised table lies on a documented edge (T4) and every multi-qubit token is a two-qubit token (T2)",
                     "the loader appends two-qubit gates only on the pairs written in the two-qubit tokens (K1, pairs mode)",
